@@ -69,9 +69,17 @@ theorem zpow_thn (d : ℕ) : (2 : ℝ) ^ (timeHalfNside d) = (2 : ℝ) ^ d / 2 :
 noncomputable def uOf (d : ℕ) (X Y : ℝ) : ℝ := (X + Y + 1) * 2 ^ d / 2
 noncomputable def vOf (d : ℕ) (X Y : ℝ) : ℝ := (Y - X + 9) * 2 ^ d / 2
 
+/-- over ℝ the depth-0 multiplication by `0.5` and the exponent increment are the same scaling -/
+theorem scaleByHalfNside_real (d : ℕ) (v : ℝ) : scaleByHalfNside (α := ℝ) d v = v * 2 ^ d / 2 := by
+  unfold scaleByHalfNside
+  by_cases h : d = 0
+  · subst h
+    simp only [if_true, r_half]; ring
+  · simp only [h, if_false, r_scale2, zpow_thn]; ring
+
 theorem srs_real (d : ℕ) (X Y : ℝ) : shiftRotateScale (α := ℝ) d (X, Y) = (uOf d X Y, vOf d X Y) := by
   unfold shiftRotateScale uOf vOf
-  simp only [r_scale2, r_ofNat, r_one, zpow_thn]
+  simp only [scaleByHalfNside_real, r_ofNat, r_one]
   ext <;> simp only <;> push_cast <;> ring
 
 theorem trunc_floor (x : ℝ) (h0 : 0 ≤ x) (h : x < 2 ^ 63) : Num.truncU64 x = ⌊x⌋₊ := by
